@@ -217,6 +217,13 @@ pub fn take_overruns() -> Vec<(usize, usize, usize)> {
 pub const ADDR: &str = "sim:80";
 
 /// spawn the real `Ohkami::howl` as the server task
+/// tuning knob: ohkami reads `OHKAMI_KEEPALIVE_TIMEOUT` once per process (a `LazyLock`); every run is its own forked
+/// process, so a scenario may choose the value as long as it does so before the first session starts
+pub fn set_keepalive_timeout(secs: u64) {
+    std::env::set_var("OHKAMI_KEEPALIVE_TIMEOUT", secs.to_string());
+    with(|w| w.count("knob.keepalive_timeout_raised"));
+}
+
 pub fn serve(o: ohkami::Ohkami) -> usize {
     let id = simcore::spawn_task("server", "server", async move {
         o.howl(ADDR).await;
